@@ -591,8 +591,8 @@ class HistState:
             elif t == 'nins':
                 c = self.at(op[1])
                 spec, via = op[2], op[4]
-                # a string is parsed in a temp sheet that knows no namespaces: every prefix is undeclared there
-                arg = spec.text(lambda u: None) if via else spec.build(self.tracked)
+                # a string is parsed in a temp sheet that is given the namespaces of the container's sheet (cfe1126)
+                arg = spec.text(self.prefix_of_sheet) if via else spec.build(self.tracked)
                 self.last_arg = arg
                 r = c.insertRule(arg, op[3])
             elif t in ('insl', 'ninsl'):
